@@ -146,7 +146,7 @@ pub fn def(tier: Tier) -> PropertyDef {
         id: "C09",
         rule: "0..8 sources x 0..39 messages with reception times non-decreasing / all equal / unordered / many ties, optional runs of up to 2000 empty sources, arbitrary start index, both constructors and both new_or_single_it variants; messages tagged (source, position); oracle: permutation, per-source order, consecutive indices, ordered output if all sources ordered, chain = concatenation. Non-trivial: >=2 non-empty sources and (cross-source tie or empty source between non-empty ones).",
         assumptions: vec!["for the single source short cut (start index documented as ignored) sources are numbered from the start index as the callers do"],
-        subs: vec![sub("merge_and_chain", tier.pick(60_000, 2_000_000), strat, check)
+        subs: vec![sub("merge_and_chain", tier.pick(1_500_000, 20_000_000), strat, check)
             .rates(&[("cross_source_tie", 0.2), ("empty_source_between", 0.1), ("single_source", 0.03)])
             .boxed()],
         workers: 16,
